@@ -26,6 +26,12 @@ def users_factory(a, base):
             a.User(base_path=base)]
 
 
+def users_anonymous_first(a, base):
+    # the same accounts, the anonymous one listed first (the order of the table means nothing)
+    table = users_factory(a, base)
+    return [table[2], table[1], table[0]]
+
+
 def slow_users_factory(a, base, **kw):
     # the same table behind a user manager that suspends in every operation (see vf/usermgr.py)
     return make_slow_manager(a, users_factory(a, base), **kw)
@@ -117,7 +123,9 @@ class Model:
 
 def build(hist, n, limit, chooser=None, explore_from=None, slow=False):
     """replay a history on a fresh server; returns (rig, model, problems, last replies)"""
-    if isinstance(slow, dict):
+    if slow == "anonymous-first":
+        ufac = users_anonymous_first
+    elif isinstance(slow, dict):
         ufac = lambda a, base: slow_users_factory(a, base, **slow)     # noqa
     else:
         ufac = slow_users_factory if slow else users_factory
@@ -266,7 +274,7 @@ ALPHABET = ["@connect", "USER alice", "USER bob", "USER nobody", "PASS pw", "PAS
 def expand(item):
     """BFS worker: execute one (history, n, limit) and all its one-step extensions' parent check"""
     hist, n, limit, *rest = item
-    slow = bool(rest and rest[0])
+    slow = (rest[0] if rest and isinstance(rest[0], str) else bool(rest and rest[0]))
     part = report.Partial()
     with logcap.capture() as cap:
         rig, model, problems = build(hist, n, limit, slow=slow)
@@ -489,13 +497,13 @@ def bfs(n, limit, depth, cap_states, slow=False):
             if level < depth:
                 for ev in enabled:
                     nxt.append(h + [ev])
-        total.counters[f"bfs_n{n}_limit{limit}{'_slow' if slow else ''}_level{level}"] = len(frontier)
+        total.counters[f"bfs_n{n}_limit{limit}{'_' + str(slow) if isinstance(slow, str) else '_slow' if slow else ''}_level{level}"] = len(frontier)
         if len(nxt) > cap_states:
             total.caps.append({"bfs": [n, limit], "level": level + 1, "frontier": len(nxt), "cap": cap_states})
             nxt = nxt[:cap_states]
         frontier = nxt
         level += 1
-    total.counters[f"bfs_n{n}_limit{limit}{'_slow' if slow else ''}_distinct_states"] = len(seen)
+    total.counters[f"bfs_n{n}_limit{limit}{'_' + str(slow) if isinstance(slow, str) else '_slow' if slow else ''}_distinct_states"] = len(seen)
     return total
 
 
@@ -508,6 +516,8 @@ def run(tier, seed, t0):
         parts.append(bfs(n, limit, depth if n == 2 else depth - 1, cap))
     # the same automaton behind a suspending user manager (canonical schedule; the races below vary the schedule)
     parts.append(bfs(2, 1, depth - 1, cap, slow=True))
+    # ... and with the accounts listed in another order
+    parts.append(bfs(2, 2, depth - 1, cap, slow="anonymous-first"))
     bound = 1 if tier == "quick" else 3
     kinds = ["early", "order", "batch"]
     # (the races with several lines in one segment also under every order in which the dispatcher looks at the tasks
